@@ -1,8 +1,15 @@
 """Per-property claims rendered into MANIFEST.json by tools/mkmanifest.py."""
 HOOK_COMMITS = []   # no source hooks needed so far
-FIX_COMMITS = ["4756b94 fix: huawei multi_all unchanged lines (C11)", "81e31d8 fix: implicit default block with its defaults (C17)", "5bfc12a fix: order_config word boundary (C08)", "943f14e fix: patch sort key (C08)", "1bcbbe1 fix: rewrite logic sends the new line ... (C01)", "28efb2a fix: file mode builds the patch from the complete diff (C16)", "c62ee59 fix: pool parent loop leaves only when the done queue is drained (C12)"]
+FIX_COMMITS = ["12c75c5 fix: make_patch op order (C13)", "8c66073 fix: resolved pointers escaped (C13)", "4756b94 fix: huawei multi_all unchanged lines (C11)", "81e31d8 fix: implicit default block with its defaults (C17)", "5bfc12a fix: order_config word boundary (C08)", "943f14e fix: patch sort key (C08)", "1bcbbe1 fix: rewrite logic sends the new line ... (C01)", "28efb2a fix: file mode builds the patch from the complete diff (C16)", "c62ee59 fix: pool parent loop leaves only when the done queue is drained (C12)"]
 PENDING = {}
 CLAIMS = {
+    "C13": {
+        "technique": "TLA+ JSON document model: RFC 6902 application as a state machine, glob pointers and fragment merge (JsonDoc.tla); TLC MC of the merge laws over a document schema; real op lists / merge results / filter results judged by a TLC trace judge",
+        "text": "TLC checks that the operational fragment merge satisfies the declarative clauses (selected parts = fragment, selected-but-absent removed, everything else untouched, idempotent) over all "
+                "documents x fragments x pointer lists of a small schema. The real make_patch op lists (and, separately, the jsonpatch library's own) are applied op by op to old inside TLA+ and must reach new; "
+                "real apply_patch output, real apply_json_fragment results (keys with '/', '~', '|', '*'; glob segments) and apply_acl_filters results are judged by the same spec.",
+        "note": "PYTHONHASHSEED pinned to 0. Third-party known finding (jsonpatch cross-container move). Fragment/filter documents have scalar leaves (pointers address object paths, the property's schema clause).",
+    },
     "C11": {
         "technique": "TLA+ VLAN-set device semantics and range expansion (Vlan.tla) + A-layer of huawei _process_vlandb; TLC exhaustive MC over all line-split configuration pairs; real patches of every VLAN-list rule family judged by a TLC trace judge",
         "text": "TLC checks the transcription of huawei _process_vlandb on all 1M pairs of configurations of a 5-VLAN universe split over <=3 lines (exact final set, no common VLAN dropped; the pre-repair "
